@@ -98,6 +98,9 @@ def read_model_parameters(
     # elif paramStruct.nCrops == 1:
     # Only one crop type considered during simulation - i.e. no rotations
     # either within or between years
+    # the model works on its own copy of the crop: the calendar (incl. its conversion to thermal time) and
+    # all derived parameters are written into the copy, so that the user's Crop object can be used again
+    crop = copy.deepcopy(crop)
     crop_list = [crop]
     param_struct.CropList = crop_list
     param_struct.NCrops = 1
